@@ -230,6 +230,7 @@ CLOSED = list(R.KEY_SPACES)
 
 HOME_VALUE = {**MAN_VALUES, **PARAM_VALUES, **ENV_VALUES, **CMD_ARG, **HDR_VALUES, **CWT_VALUES, **INV_VALUES}
 _NOVALUE = object()
+_NULL = "<null>"
 
 
 def check_foreign(name, home, space, acc):
@@ -239,13 +240,15 @@ def check_foreign(name, home, space, acc):
     cands = [None]
     if space not in ("policy-bits", "hash-algs", "cose-algs"):  # these spaces hold the name as a value, there is no accompanying value
         hv = HOME_VALUE.get(name, _NOVALUE)
-        cands += ([hv] if hv is not _NOVALUE else []) + ["00", "t", 1, True, [], {}]
+        cands += ([hv] if hv is not _NOVALUE else []) + ["00", "t", 1, True, [], {}, _NULL]  # _NULL: the member is written with an empty (null) value
     if space == "text-keys":
         # a language map holds text keys (closed, string values) and component identifiers (open, map values): a map value
         # puts the key into the open component-identifier position, which is not a closed key space
         cands = [v for v in cands if not isinstance(v, dict)]
     for v in cands:
         desc, _ = place(space, name, v)
+        if v is _NULL:
+            desc = _nullify(desc)
         acc.note("foreign_attempts")
         try:
             sut.create_mem(desc)
@@ -254,6 +257,56 @@ def check_foreign(name, home, space, acc):
         except Exception:
             continue
         raise Violation(f"name {name!r} of key space {home} was silently accepted in key space {space} (with value {v!r})", "rejection")
+
+
+def _nullify(x):
+    if isinstance(x, dict):
+        return {k: _nullify(v) for k, v in x.items()}
+    if isinstance(x, list):
+        return [_nullify(v) for v in x]
+    return None if x == _NULL else x
+
+
+def check_wide_codes(space, name, acc):
+    """Binary input in which the registered integer is written in a longer (valid, not shortest) form: it is the same code - parse shows the
+    same name as for the shortest form, or refuses the input."""
+    if space not in _WHERE or name == "suit-delegation":
+        return
+    desc, _ = place(space, name)
+    data = refenc.envelope(copy.deepcopy(desc))
+    code = R.KEY_SPACES[space][name]
+    if not isinstance(code, int) or isinstance(code, bool):
+        return
+    steps, last = _WHERE[space]
+    try:
+        shown_int = sut.parse_mem(data)
+    except boot.HarnessError:
+        raise
+    except Exception:
+        return  # the decode direction reports this
+    for width in (1, 2, 4, 8):
+        arg = code if code >= 0 else -1 - code
+        if arg >= 256 ** width or (width == 1 and arg < 24 and False):
+            continue
+        head = {1: 0x18, 2: 0x19, 4: 0x1A, 8: 0x1B}[width] | (0x20 if code < 0 else 0)
+        wide = cb.Raw(bytes([head]) + arg.to_bytes(width, "big"))
+        if cb.enc(code) == wide.data:
+            continue
+        try:
+            bad = cb.enc(_edit(cb.loads(data), steps, last, code, wide))
+        except (KeyError, IndexError, TypeError, AttributeError, cb.CborError) as e:
+            raise boot.HarnessError(f"cannot place a wide encoding of {name} ({space}): {type(e).__name__}: {e}")
+        acc.case(nt_key=("wide-code", space, name, width), classes=["wide-code", f"space:{space}"], sample={"direction": "wide-code", "space": space, "name": name, "width": width, "bytes": bad.hex()} if width == 2 else None,
+                 sample_key=f"wide/{space}")
+        try:
+            shown = sut.parse_mem(bad)
+        except boot.HarnessError:
+            raise
+        except Exception:
+            continue
+        if _shape(shown) != _shape(shown_int):
+            raise Violation(f"{space}: code {code} written with a {width}-byte argument is accepted but not shown as {name!r}: {_first_difference(_shape(shown), _shape(shown_int))}",
+                            "the same name, or refusal", bucket=f"wide-code:{space}")
 
 
 def check_tags(acc):
@@ -641,6 +694,9 @@ def run_shard(ctx, spec):
         for sp, tab in R.KEY_SPACES.items():
             for name in tab:
                 _do(acc, "text-spelling", {"space": sp, "name": name, "spelling": True}, check_text_spelling, sp, name)
+        for sp, tab in R.KEY_SPACES.items():
+            for name in tab:
+                _do(acc, "wide-code", {"space": sp, "name": name, "wide": True}, check_wide_codes, sp, name)
     elif kind == "foreign":
         i = 0
         for home, tab in R.KEY_SPACES.items():
@@ -679,6 +735,8 @@ def replay(ctx, check, case):
             check_foreign(case["name"], case["home"], case["space"], acc)
         elif check == "text-spelling":
             check_text_spelling(case["space"], case["name"], acc)
+        elif check == "wide-code":
+            check_wide_codes(case["space"], case["name"], acc)
         elif check == "tag-widths":
             check_tag_widths(acc)
         elif check == "policy-integers":
